@@ -53,6 +53,64 @@ def gen_timer_scenario(rng, sid):
     return ("HANDOFF", sid, lines), feat, seed
 
 
+def gen_timer_chain_scenario(rng, sid):
+    """hand-offs with a CHAIN of timers: process 0 arms three timers with non-decreasing delays in one handler call
+    (the later ones are withheld behind the earlier ones in the checker); a message of process 1, in flight at the
+    snapshot, makes it cancel one of them - possibly one that is itself still withheld - before the first fires.
+    The simulator then fires the remaining ones; the checker must explore that."""
+    seed = rng.randrange(1, 1 << 20)
+    tip = gen_mc.TIPS[0]
+    pls = list(gen_mc.PAYLOADS_OVERRIDE or gen_mc.PAYLOADS[:3])[:3]     # the Python twins need JSON payloads
+    rng.shuffle(pls)
+    la, lb, mm = pls[0], pls[1], pls[2]
+    k_local = [2] + list(tip) + [256] + list(la)
+    k_msg = [1, 1] + list(tip) + [256] + list(mm)
+    pick = None
+    for nrows in (3, 4, 5, 6, 7, 8, 9, 11, 13):
+        r0 = gen_mc.script_row(0, k_local, nrows, False)
+        r1 = gen_mc.script_row(1, k_msg, nrows, False)
+        others = {gen_mc.script_row(1, [3, t], nrows, False) for t in range(3)}
+        if r0 != r1 and not ({r0, r1} & others):
+            pick = (nrows, r0, r1)
+            break
+    if pick is None:
+        return gen_timer_scenario(rng, sid)
+    nrows, r0, r1 = pick
+    ds = sorted(rng.choice([1.0, 1.5, 2.0, 3.0, 4.0]) for _ in range(3))
+    if rng.random() < 0.3:
+        ds[1] = ds[0]                      # equal delays are withheld in set order too
+    victim = rng.choice([1, 1, 1, 0, 2])
+    lines = ["SEED %d" % seed]
+    lines.append("PROG 0 2 0 0 %d" % nrows)
+    for r in range(nrows):
+        if r == r0:
+            lines.append("ROW 0 3 " + " ".join("T %d %d 1" % (t, f64_bits(ds[t])) for t in range(3)))
+        elif r == r1:
+            lines.append("ROW 0 1 C %d" % victim)
+        else:
+            lines.append("ROW 0 0 ")
+    # process 1: forwards on its local message; keeps a heartbeat of its own so that something else stays pending
+    lines.append("PROG 1 1 0 0 1")
+    lines.append("ROW 1 2 S 0 %s %s T 0 %d 1" % (gen_mc.bstr(tip), gen_mc.bstr(mm), f64_bits(rng.choice([2.5, 6.0]))))
+    lines.append("DRAWS")
+    lines += ["OP ADDNODE 0", "OP ADDNODE 1", "OP ADDPROC 0 0", "OP ADDPROC 1 1"]
+    lines.append("OP NET DELAY %d" % f64_bits(rng.choice([0.25, 0.5])))
+    lines.append("OP LOCAL 0 %s %s" % (gen_mc.bstr(tip), gen_mc.bstr(la)))
+    lines.append("OP LOCAL 1 %s %s" % (gen_mc.bstr(tip), gen_mc.bstr(lb)))
+    # (local messages are handled at once: three timers are pending and the message is in flight now)
+    if rng.random() < 0.3:
+        lines.append("OP STEP")            # the cancel already happened in the simulator
+    lines.append("SNAPSHOT")
+    lines += gen_mc.clock_lines([0.0], 40)
+    lines += ["PRED INV NONE", "PRED GOAL NOEVENTS", "PRED PRUNE NONE", "PRED COLLECT NONE",
+              "RUN BFS FULL 0 %d" % gen_mc.FUEL, "CONTINUE"]
+    lines += ["OP STEP"] * 8
+    feat = {"timers": True, "override": False, "clock": False, "rand_progs": False, "drop": 0.0, "dupl": 0.0, "corrupt": 0.0,
+            "rand_delay": False, "crash": False, "netops": False, "skew": False, "links": False, "timer_handoff": True,
+            "timer_chain": True}
+    return ("HANDOFF", sid, lines), feat, seed
+
+
 def gen_link_scenario(rng, sid):
     """hand-offs around link control: two processes share node 0, a third lives on node 1; chatty programs send to
     same-node and cross-node peers; a link operation (disconnect / drop_incoming / drop_outgoing / disable_link) on one
@@ -101,6 +159,8 @@ def gen_scenario(rng, sid, clock_free=True):
         return gen_timer_scenario(rng, sid)
     if rng.random() < 0.3:
         return gen_link_scenario(rng, sid)
+    if rng.random() < 0.15:
+        return gen_timer_chain_scenario(rng, sid)
     feat = gen_sim.gen_features(rng)
     feat["rand_progs"] = False            # draw-free programs (C04's quantifier)
     if clock_free:
